@@ -145,7 +145,11 @@ func C11() int {
 		jb := jobs[ji]
 		dir := s.TempDir("c11")
 		defer os.RemoveAll(dir)
-		kp := filepath.Join(dir, "enc.key")
+		// the key path is used exactly as given: names with '$', '~', blanks or non-ASCII are ordinary file names
+		kname := []string{"enc.key", "tenant$A.key", "logs-${env}.key", "~enc.key", "enc key.key", "ké€y.key", "$HOME.key"}[ji%7]
+		kp := filepath.Join(dir, kname)
+		// the other redaction switches do not touch the key: --redactNamespaces / --redactFieldNames compute pseudonyms next to it
+		extra := [][]string{nil, {"-w"}, {"-f", "db", "-n"}, {"-w", "-f", "db.c", "-i"}}[(ji/7+ji)%4]
 		switch jb.st.name {
 		case "parent-missing":
 			kp = filepath.Join(dir, "nodir", "enc.key")
@@ -170,7 +174,7 @@ func C11() int {
 			inp := filepath.Join(dir, fmt.Sprintf("in%d.log", ri))
 			outp := filepath.Join(dir, fmt.Sprintf("out%d.log", ri))
 			os.WriteFile(inp, []byte(strings.Join(inputs[inName], "\n")+"\n"), 0o644)
-			run := sut.Run{Args: []string{"redact", "--encrypt", "-q", kp, "-o", outp, inp}, Dir: dir}
+			run := sut.Run{Args: append(append([]string{"redact", "--encrypt", "-q", kp}, extra...), "-o", outp, inp), Dir: dir}
 			stlog := filepath.Join(dir, fmt.Sprintf("strace%d.log", ri))
 			useTrace := straceOK && (class == "absent" || strings.HasPrefix(jb.st.name, "unreadable"))
 			if useTrace {
@@ -208,9 +212,12 @@ func C11() int {
 						viol("bad-json", "output line does not parse")
 						return
 					}
-					leaf := t.Get("attr").Get("command").Get("filter").Get("name")
+					var leaf *jt.Node // the first member of the filter (its key is renamed under -f)
+					if f := t.Get("attr").Get("command").Get("filter"); f != nil && f.K == jt.Obj && len(f.Vals) > 0 {
+						leaf = f.Vals[0]
+					}
 					if leaf == nil || leaf.K != jt.Str {
-						viol("bad-output", "filter.name missing in the output")
+						viol("bad-output", "the filter's first member is missing in the output")
 						return
 					}
 					if leaf.S == secretsOf[inName][li] {
